@@ -32,6 +32,29 @@ JOBS = int(os.environ.get("VERIF_JOBS", "8"))
 MEM_KB = int(os.environ.get("VERIF_MEM_KB", str(7 * 1024 * 1024)))
 
 
+CHILDREN = set()
+
+
+def killpg(pid):
+    import signal
+    try:
+        os.killpg(pid, signal.SIGKILL)
+    except (ProcessLookupError, PermissionError):
+        pass
+
+
+def _cleanup(*_a):
+    for pid in list(CHILDREN):
+        killpg(pid)
+
+
+import atexit
+import signal as _signal
+atexit.register(_cleanup)
+for _s in (_signal.SIGTERM, _signal.SIGINT, _signal.SIGHUP):
+    _signal.signal(_s, lambda *a: (_cleanup(), os._exit(130)))
+
+
 class Inst:
     """One harness instance = one macro invocation = one CBMC run."""
 
@@ -57,15 +80,20 @@ def sh(cmd, cwd=None, env=None, timeout=None, mem_kb=None, logfile=None):
     full = pre + "exec " + " ".join("'%s'" % c.replace("'", "'\\''") for c in cmd)
     t0 = time.time()
     out = open(logfile, "wb") if logfile else subprocess.PIPE
+    p = subprocess.Popen(["bash", "-c", full], cwd=cwd, env=env, stdout=out,
+                         stderr=subprocess.STDOUT, start_new_session=True)
+    CHILDREN.add(p.pid)
     try:
-        p = subprocess.run(["bash", "-c", full], cwd=cwd, env=env, stdout=out,
-                           stderr=subprocess.STDOUT, timeout=timeout)
+        so, _ = p.communicate(timeout=timeout)
         rc = p.returncode
-        txt = None if logfile else p.stdout.decode("utf-8", "replace")
-    except subprocess.TimeoutExpired as e:
+        txt = None if logfile else so.decode("utf-8", "replace")
+    except subprocess.TimeoutExpired:
+        killpg(p.pid)
+        so, _ = p.communicate()
         rc = -9
-        txt = None if logfile else (e.stdout or b"").decode("utf-8", "replace")
+        txt = None if logfile else (so or b"").decode("utf-8", "replace")
     finally:
+        CHILDREN.discard(p.pid)
         if logfile:
             out.close()
     if logfile:
@@ -164,6 +192,7 @@ class Check:
         mods = set(i.module for i in self.insts)
         if "worker" in mods:
             mods.add("window")  # remove_model stub lives in the window harness module
+            mods.add("server")  # acked_timeout_any() (real parse_options) lives in the server harness module
         for m in sorted(mods):
             tmpl = open(os.path.join(VERIF, "kani", m + "_h.rs")).read()
             body = tmpl + "\n// ---- instances generated by the driver ----\n"
@@ -230,8 +259,9 @@ class Check:
         extra = ["--harness", inst.name, "--concrete-playback=print"]
         if inst.cbmc_args:
             extra += ["--cbmc-args"] + inst.cbmc_args
+        # trace generation needs more memory than the plain run
         rc, txt, dt = sh(self.kani_cmd(extra), cwd=self.crate, env=base_env(self.target),
-                         timeout=inst.timeout, mem_kb=inst.mem_kb, logfile=log)
+                         timeout=inst.timeout * 2, mem_kb=max(inst.mem_kb * 2, 16 * 1024 * 1024), logfile=log)
         tests = re.findall(r"```\n(.*?#\[test\].*?)```", txt, re.S)
         if not tests:
             tests = re.findall(r"(/// Test generated for harness.*?\n}\n)", txt, re.S)
@@ -255,26 +285,35 @@ class Check:
                 names.append(nm)
                 f.write("\n" + t + "\n")
         outcomes = []
-        for profile in ("dev", "release"):
-            cmd = ["cargo", "kani", "playback", "-Z", "concrete-playback", "--lib",
-                   "--features", ",".join(self.features + ["verif_replay"])]
+        for profile in ("dev",):
+            env = base_env(os.path.join(rdir, "target-" + profile))
             if profile == "release":
-                cmd.append("--release")
-            cmd += ["--", "--test-threads=1", "kani_concrete_playback"]
+                # cargo kani playback has no --release: give the dev profile release semantics
+                env.update({"CARGO_PROFILE_DEV_OPT_LEVEL": "3", "CARGO_PROFILE_DEV_DEBUG_ASSERTIONS": "false",
+                            "CARGO_PROFILE_DEV_OVERFLOW_CHECKS": "false", "CARGO_PROFILE_TEST_OPT_LEVEL": "3",
+                            "CARGO_PROFILE_TEST_DEBUG_ASSERTIONS": "false", "CARGO_PROFILE_TEST_OVERFLOW_CHECKS": "false"})
             plog = os.path.join(self.logs, "%s.playback-%s.log" % (inst.name, profile))
-            rc2, txt2, dt2 = sh(cmd, cwd=rcrate, env=base_env(os.path.join(rdir, "target")),
-                                timeout=600, logfile=plog)
-            panics = re.findall(r"panicked at (.*?):\n(.*?)\n", txt2)
-            built = "running " in txt2
+            allp, built, hung, alltxt = [], False, False, ""
+            # one process per generated test: the harness state lives in statics
+            for nm in names:
+                cmd = ["cargo", "kani", "playback", "-Z", "concrete-playback", "--lib",
+                       "--features", ",".join(self.features + ["verif_replay"]),
+                       "--", "--test-threads=1", nm]
+                rc2, txt2, dt2 = sh(cmd, cwd=rcrate, env=env, timeout=600)
+                alltxt += "\n===== %s (%s) rc=%s =====\n%s" % (nm, profile, rc2, txt2)
+                allp += re.findall(r"panicked at (.*?):\n(.*?)\n", txt2)
+                built = built or ("running " in txt2)
+                hung = hung or (rc2 == -9 and "running " in txt2)
+            open(plog, "w").write(alltxt)
+            panics = allp
             real = [(loc, msg) for loc, msg in panics if "VERIF-CUT" not in msg
-                    and "should always hold" not in msg]
-            hung = rc2 == -9 and built
-            outcomes.append({"profile": profile, "rc": rc2, "built": built, "hung": hung,
-                             "panics": [{"at": l, "msg": m_[:300]} for l, m_ in panics][:6],
+                    and "should always hold" not in msg and "Not enough det vals" not in msg]
+            outcomes.append({"profile": profile, "built": built, "hung": hung,
+                             "panics": [{"at": l, "msg": m_[:300]} for l, m_ in panics][:8],
                              "reproduced": bool(real) or hung})
             shutil.copy(plog, os.path.join(rdir, "playback-%s.log" % profile))
+            shutil.rmtree(os.path.join(rdir, "target-" + profile), ignore_errors=True)
         # keep the replay artefacts (test source + logs), drop the build output
-        shutil.rmtree(os.path.join(rdir, "target"), ignore_errors=True)
         keep = os.path.join(VERIF, "replays", self.prop, inst.name)
         if os.path.exists(keep):
             shutil.rmtree(keep)
